@@ -159,10 +159,50 @@ func (c *FnCtx) eventCall(st *State, ins ssa.Instruction, cc *ssa.CallCommon) ma
 			c.unsupported("event %s: pattern has %d args, call at %s has %d", fl.callee, len(fl.argT), c.where(ins), len(cc.Args))
 			continue
 		}
+		if fl.iter != nil && (c.curBlock == nil || !fl.iter.blocks[c.curBlock]) {
+			continue // iteration-local event: only calls inside that loop count
+		}
 		conds := []Term{extra}
+		lazyFail := false
 		for i, pt := range fl.argT {
 			if pt == "" {
 				continue
+			}
+			if fl.iter != nil {
+				// evaluate the pattern now, in the state of the call
+				env := c.baseEnv(st)
+				saveLoop := c.curLoop
+				c.curLoop = fl.iter
+				if w, isCall := fl.args[i].(*eCall); isCall {
+					if id, ok := w.fun.(*eIdent); ok && id.name == "where" && len(w.args) == 2 {
+						// where(x, cond): the actual argument, bound to x, satisfies cond
+						xv, okx := w.args[0].(*eIdent)
+						if !okx {
+							lazyFail = true
+							c.curLoop = saveLoop
+							break
+						}
+						av := c.val(st, cc.Args[i])
+						env.bound = map[string]*Val{xv.name: av}
+						ct, err := c.evalBool(w.args[1], env)
+						c.curLoop = saveLoop
+						if err != nil {
+							c.unsupported("event %s: where(...) pattern: %v", fl.callee, err)
+							lazyFail = true
+							break
+						}
+						conds = append(conds, ct)
+						continue
+					}
+				}
+				pv, err := c.evalSpec(fl.args[i], env)
+				c.curLoop = saveLoop
+				if err != nil {
+					lazyFail = true
+					break
+				}
+				fl.argV[i] = pv
+				pt = pv.S
 			}
 			av := c.val(st, cc.Args[i])
 			var at, ptn Term
@@ -192,6 +232,9 @@ func (c *FnCtx) eventCall(st *State, ins ssa.Instruction, cc *ssa.CallCommon) ma
 				continue
 			}
 			conds = append(conds, eq(at, ptn))
+		}
+		if lazyFail {
+			continue
 		}
 		if fl.ret {
 			retConds[fl.id] = c.define(fmt.Sprintf("retc%d", fl.id), "Bool", and(st.pc, and(conds...)))
@@ -399,7 +442,7 @@ func (c *FnCtx) doCallInner(st *State, v ssa.Value, cc *ssa.CallCommon, ins ssa.
 	for _, a := range cc.Args {
 		args = append(args, c.val(st, a))
 	}
-	ignoreContract := c.spec != nil && c.spec.options["havoc:"+callee.Name()]
+	ignoreContract := c.spec != nil && (c.spec.options["havoc:"+callee.Name()] || c.spec.options["havoc:*"])
 	if sp := c.specOf(callee); !ignoreContract && sp != nil && callee != nil && (len(sp.requires)+len(sp.ensures) > 0 || sp.hasModifies || sp.pure) {
 		c.applyContract(st, v, callee, sp, args, ins)
 		return
